@@ -82,6 +82,8 @@ func (d *DB) Write(fn func(w db.Batch) error) error {
 	defer d.listener.OnCommit(time.Now())
 
 	batch := d.NewBatch()
+	defer batch.Close() //nolint:errcheck // nothing to flush: the remote database is read-only
+
 	if err := fn(batch); err != nil {
 		return err
 	}
@@ -110,6 +112,8 @@ func (d *DB) Get(key []byte, cb func(value []byte) error) error {
 	if err != nil {
 		return err
 	}
+	// the transaction (a stream, with a handler and a view of the database on the server) serves this call only
+	defer txn.Discard() //nolint:errcheck
 
 	return txn.Get(key, cb)
 }
@@ -119,6 +123,7 @@ func (d *DB) Has(key []byte) (bool, error) {
 	if err != nil {
 		return false, err
 	}
+	defer txn.Discard() //nolint:errcheck
 
 	return txn.Has(key)
 }
@@ -163,7 +168,12 @@ func (d *DB) NewIterator(start []byte, withUpperBound bool) (db.Iterator, error)
 		return nil, err
 	}
 
-	return txn.NewIterator(start, withUpperBound)
+	it, err := txn.newIterator(start, withUpperBound)
+	if err != nil {
+		return nil, errors.Join(err, txn.Discard())
+	}
+	it.ownsTx = true // closing the iterator ends the transaction
+	return it, nil
 }
 
 func (d *DB) NewSnapshot() db.Snapshot {
